@@ -91,7 +91,7 @@ func vh_C03_base_new() {
 // ---- inductive steps from an arbitrary Inv state ----
 
 func vh_C03_step_add() {
-	k := vxK(1, 2)
+	k := vxK(1, 1)
 	m, ok := vxBuiltState(k)
 	if !ok {
 		return
